@@ -195,6 +195,7 @@ func (s *status) DeleteShardMetadata(namespace string, shard int64) {
 
 func NewStatusResource(meta metadata.Provider) StatusResource {
 	s := status{
+		Logger:           slog.With("component", "status-resource"),
 		lock:             sync.RWMutex{},
 		metadata:         meta,
 		currentVersionID: metadata.NotExists,
